@@ -173,6 +173,26 @@ func checkEncode(h ref.Header) string {
 	if err := ws.WriteHeader(rec, wh); err != nil || !bytes.Equal(rec.Bytes(), want) {
 		return fmt.Sprintf("WriteHeader(%v) into a plain writer: err=%v bytes=%x, RFC layout is %x", h, err, rec.Bytes(), want)
 	}
+	// a header-only frame (the payload travels separately, as in the library's own benchmarks): compile and
+	// write are the header codec followed by the payload handed over - here none, whatever length is announced
+	if msg := func() (msg string) {
+		defer func() {
+			if p := recover(); p != nil {
+				msg = fmt.Sprintf("CompileFrame / WriteFrame of the header-only frame %v panicked: %v", h, p)
+			}
+		}()
+		cf, err := ws.CompileFrame(ws.Frame{Header: wh})
+		if err != nil || !bytes.Equal(cf, want) {
+			return fmt.Sprintf("CompileFrame of the header-only frame %v: err=%v bytes=%x, RFC layout of the header is %x", h, err, cf, want)
+		}
+		rec := tx.NewRec()
+		if err := ws.WriteFrame(rec, ws.Frame{Header: wh}); err != nil || !bytes.Equal(rec.Bytes(), want) {
+			return fmt.Sprintf("WriteFrame of the header-only frame %v: err=%v bytes=%x, RFC layout of the header is %x", h, err, rec.Bytes(), want)
+		}
+		return ""
+	}(); msg != "" {
+		return msg
+	}
 	stream := append(append([]byte(nil), want...), sentinel...)
 	for _, sizes := range [][]int{nil, {1}} {
 		for i, dec := range []func([]byte, []int) decoded{decodeLow, decodeStream} {
